@@ -521,6 +521,80 @@ Proof.
     + apply (Hno x); [apply ra_refl; exact HnD|exact Hx].
 Qed.
 
+(* ---------- BaseReactor.__init__: the atoms to delete; masked atoms are never removed ---------- *)
+Theorem to_delete_of_spec : forall pattern replacement delete_atoms x,
+  In x (to_delete_of pattern replacement delete_atoms) <->
+  delete_atoms = true /\ In (x, false) pattern /\ ~ In x replacement.
+Proof.
+  intros pattern replacement da x. unfold to_delete_of. destruct da.
+  - rewrite zdiff_In. unfold keys. rewrite in_map_iff. split.
+    + intros [([x' mk] & Ex & Hin) Hn]. cbn in Ex. subst x'. apply filter_In in Hin. destruct Hin as [Hin Hm].
+      cbn in Hm. apply negb_true_iff in Hm. subst mk. auto.
+    + intros (_ & Hin & Hn). split; [|exact Hn]. exists (x, false). split; [reflexivity|].
+      apply filter_In. split; [exact Hin|reflexivity].
+  - split; [intros []|intros [H _]; discriminate].
+Qed.
+
+(* "unless masked": the image of a masked pattern atom is a kept matched atom, whatever the replacement says *)
+Theorem masked_never_deleted : forall g pattern replacement delete_atoms mapping p v r,
+  sym_graph g = true ->
+  NoDup (keys pattern) -> In (p, true) pattern ->
+  (forall q, In q (keys pattern) -> exists w, zget mapping q = Some w /\ In w (keys g)) ->
+  (forall q1 q2 w, In q1 (keys pattern) -> In q2 (keys pattern) -> zget mapping q1 = Some w -> zget mapping q2 = Some w -> q1 = q2) ->
+  zget mapping p = Some v ->
+  get_deleted g mapping (to_delete_of pattern replacement delete_atoms) = Ok r ->
+  ~ In v r.
+Proof.
+  intros g pattern replacement da mapping p v r Hs Hnd Hp Hm Hinj Hv Hr.
+  set (td := to_delete_of pattern replacement da) in *.
+  assert (Htd : forall q, In q td -> In (q, false) pattern) by (intros q Hq; apply to_delete_of_spec in Hq; tauto).
+  assert (Hkey : forall q mk, In (q, mk) pattern -> In q (keys pattern)).
+  { intros q mk Hin. unfold keys. apply in_map_iff. exists (q, mk). split; [reflexivity|exact Hin]. }
+  assert (Hm' : forall q, In q td -> exists w, zget mapping q = Some w /\ In w (keys g)).
+  { intros q Hq. apply Hm. eapply Hkey. apply Htd. exact Hq. }
+  apply (proj2 (get_deleted_keeps_kept g mapping td r Hs Hm' Hr) v).
+  unfold kept. apply zdiff_In. split.
+  - apply in_map_iff. exists (p, v). split; [reflexivity|]. apply zget_Some_In. exact Hv.
+  - intros Hi. unfold image in Hi.
+    destruct (map_image_total mapping td) as [vs Evs].
+    { intros q Hq. destruct (Hm' q Hq) as (w & Ew & _). exists w. exact Ew. }
+    rewrite Evs in Hi. apply nodup_In in Hi.
+    destruct (map_image_In _ _ _ _ Evs Hi) as (q & Hq & Eq).
+    assert (q = p) by (apply (Hinj q p v); [eapply Hkey; apply Htd; exact Hq|eapply Hkey; exact Hp|exact Eq|exact Hv]).
+    subst q. apply Htd in Hq.
+    (* p is listed once in the pattern: it cannot be both masked and unmasked *)
+    clear - Hnd Hp Hq. induction pattern as [|[k mk] l IH]; [destruct Hp|].
+    cbn [keys map fst] in Hnd. inversion Hnd as [|? ? Hk Hnd']; subst.
+    destruct Hp as [Ep|Hp], Hq as [Eq|Hq].
+    + congruence.
+    + inversion Ep; subst. apply Hk. unfold keys. apply in_map_iff. exists (p, false). split; [reflexivity|exact Hq].
+    + inversion Eq; subst. apply Hk. unfold keys. apply in_map_iff. exists (p, true). split; [reflexivity|exact Hp].
+    + apply IH; assumption.
+Qed.
+
+(* non-vacuity of masked_never_deleted: CCOC, pattern [C;M:1][O:2][C:3] >> [A:2], match {1:4, 2:3, 3:2}: the masked carbon 4
+   stays although the replacement does not name it; the carbon 2 goes and takes the methyl 1 with it *)
+Definition mask_g : graph := [(1, [2]); (2, [1; 3]); (3, [2; 4]); (4, [3])].
+Definition mask_pattern : list (Z * bool) := [(1, true); (2, false); (3, false)].
+Definition mask_mapping : list (Z * Z) := [(1, 4); (2, 3); (3, 2)].
+
+Example masked_example :
+  sym_graph mask_g = true /\ NoDup (keys mask_pattern) /\ In (1, true) mask_pattern /\
+  (forall q, In q (keys mask_pattern) -> exists w, zget mask_mapping q = Some w /\ In w (keys mask_g)) /\
+  (forall q1 q2 w, In q1 (keys mask_pattern) -> In q2 (keys mask_pattern) ->
+                   zget mask_mapping q1 = Some w -> zget mask_mapping q2 = Some w -> q1 = q2) /\
+  to_delete_of mask_pattern [2] true = [3] /\
+  sorted_res (get_deleted mask_g mask_mapping (to_delete_of mask_pattern [2] true)) = Ok [1; 2].
+Proof.
+  split; [vm_compute; reflexivity|]. split; [cbn; repeat constructor; cbn; intuition discriminate|]. split; [left; reflexivity|].
+  split.
+  { intros q Hq. vm_compute in Hq. destruct Hq as [<-|[<-|[<-|[]]]]; eexists; split; vm_compute; eauto. }
+  split.
+  { intros q1 q2 w H1 H2. vm_compute in H1, H2.
+    destruct H1 as [<-|[<-|[<-|[]]]]; destruct H2 as [<-|[<-|[<-|[]]]]; vm_compute; intros E1 E2; congruence. }
+  split; vm_compute; reflexivity.
+Qed.
+
 (* membership-equal D, K give the same specification: the result does not depend on set iteration order *)
 Lemma reach_av_ext g D D' x y : (forall v, In v D <-> In v D') -> reach_av g D x y -> reach_av g D' x y.
 Proof.
@@ -1875,6 +1949,210 @@ Proof.
   - eexists _, _. split; [vm_compute; reflexivity|]. repeat split; vm_compute; reflexivity.
 Qed.
 
+(* non-vacuity of identity_template: ethyl acetate, [C:1]=[O:2] >> [A:1]=[A:2], match {1:2, 2:3} *)
+Definition id_tpl : template :=
+  mkTpl [(1, RAny 0 false); (2, RAny 0 false)] [(1, [(2, mkBond 2 None)]); (2, [(1, mkBond 2 None)])].
+Definition id_mapping : list (Z * Z) := [(1, 2); (2, 3)].
+
+Example identity_example :
+  wf_template id_tpl = true /\
+  (forall n1 n2 m, In n1 (keys (t_atoms id_tpl)) -> In n2 (keys (t_atoms id_tpl)) ->
+                   truthy_get id_mapping n1 = Some m -> truthy_get id_mapping n2 = Some m -> n1 = n2) /\
+  (forall n ra, In (n, ra) (t_atoms id_tpl) ->
+                exists m sa, truthy_get id_mapping n = Some m /\ atom_of ex_mol m = Some sa /\ same_request ra sa) /\
+  (forall n0 m0 x y, In n0 (keys (t_atoms id_tpl)) -> In m0 (keys (t_atoms id_tpl)) ->
+                     truthy_get id_mapping n0 = Some x -> truthy_get id_mapping m0 = Some y ->
+                     option_map b_ord (get2 (t_bonds id_tpl) n0 m0) = option_map b_ord (bond_of ex_mol x y)) /\
+  exists new mp', patcher ex_mol id_mapping id_tpl [] = Ok (new, mp') /\ ids new = [2; 3; 1; 4; 5; 6].
+Proof.
+  split; [vm_compute; reflexivity|]. split.
+  { intros n1 n2 m H1 H2. vm_compute in H1, H2.
+    destruct H1 as [<-|[<-|[]]]; destruct H2 as [<-|[<-|[]]]; vm_compute; intros E1 E2; congruence. }
+  split.
+  { intros n ra Hin. vm_compute in Hin. destruct Hin as [E|[E|[]]]; inversion E; subst; eexists _, _;
+      (split; [vm_compute; reflexivity|split; [vm_compute; reflexivity|cbn; split; reflexivity]]). }
+  split.
+  { intros n0 m0 x y H1 H2. vm_compute in H1, H2.
+    destruct H1 as [<-|[<-|[]]]; destruct H2 as [<-|[<-|[]]]; vm_compute; intros E1 E2; inversion E1; inversion E2; subst; reflexivity. }
+  eexists _, _. split; vm_compute; reflexivity.
+Qed.
+
+(* ---------- _patcher never raises on a real match of a well-formed template ---------- *)
+Lemma link_total adj n m fresh : In n (keys adj) -> In m (keys adj) ->
+  exists adj', link adj n m fresh = Ok adj' /\ keys adj' = keys adj.
+Proof.
+  intros Hn Hm. unfold link.
+  destruct (zget_key_Some _ _ Hm) as [lm Em]. destruct (zget_key_Some _ _ Hn) as [ln En]. rewrite Em, En.
+  eexists. split; [reflexivity|]. apply keys_zset_present. exact Hn.
+Qed.
+
+Lemma patch_atoms_total g : forall l s,
+  NoDup (keys l) -> 0 <= p_max s ->
+  (forall n chg rad, In (n, RAny chg rad) l -> exists m, truthy_get (p_map s) n = Some m) ->
+  (forall n m, In n (keys l) -> truthy_get (p_map s) n = Some m -> In m (ids g)) ->
+  exists s', fold_res (patch_atom g) l s = Ok s'.
+Proof.
+  induction l as [|[n ra] l IH]; intros s Hnd Hmax Hany Himg; cbn [fold_res]; [eexists; reflexivity|].
+  cbn [keys map fst] in Hnd. inversion Hnd as [|? ? Hn Hnd']; subst.
+  assert (Hstep : exists s1, patch_atom g s (n, ra) = Ok s1 /\ 0 <= p_max s1 /\
+                             forall k, k <> n -> truthy_get (p_map s1) k = truthy_get (p_map s) k).
+  { unfold patch_atom. destruct ra as [chg rad|num iso chg rad h].
+    - destruct (Hany n chg rad (or_introl eq_refl)) as [m Em]. rewrite Em.
+      destruct (zget_key_Some _ _ (Himg n m (or_introl eq_refl) Em)) as [sa Esa]. unfold atom_of. rewrite Esa.
+      eexists. split; [reflexivity|]. cbn. split; [exact Hmax|reflexivity].
+    - destruct (truthy_get (p_map s) n) as [m|] eqn:Em.
+      + destruct (zget_key_Some _ _ (Himg n m (or_introl eq_refl) Em)) as [sa Esa]. unfold atom_of. rewrite Esa.
+        eexists. split; [reflexivity|]. cbn. split; [exact Hmax|reflexivity].
+      + eexists. split; [reflexivity|]. cbn. split; [lia|].
+        intros k Hk. rewrite truthy_get_zset by lia. destruct (Z.eqb_spec k n); [contradiction|reflexivity]. }
+  destruct Hstep as (s1 & E1 & Hmax1 & Hother). rewrite E1.
+  assert (Hne : forall k, In k (keys l) -> k <> n) by (intros k Hk ->; contradiction).
+  apply IH; [exact Hnd'|exact Hmax1| |].
+  - intros k chg rad Hin.
+    assert (Hk : In k (keys l)) by (unfold keys; apply in_map_iff; exists (k, RAny chg rad); split; [reflexivity|exact Hin]).
+    rewrite (Hother k (Hne k Hk)). apply (Hany k chg rad). right. exact Hin.
+  - intros k m Hk. rewrite (Hother k (Hne k Hk)). apply Himg. right. exact Hk.
+Qed.
+
+Lemma patch_bonds_of_total mp T nbs : forall adj,
+  (forall n, In n T -> exists x, zget mp n = Some x /\ In x (keys adj)) ->
+  In (fst nbs) T -> (forall m b, In (m, b) (snd nbs) -> In m T) ->
+  exists adj', patch_bonds_of mp adj nbs = Ok adj' /\ keys adj' = keys adj.
+Proof.
+  intros adj Hmp Hn Hbs. unfold patch_bonds_of.
+  destruct (Hmp _ Hn) as (x & Ex & Hx). rewrite Ex.
+  revert adj Hmp Hx Hbs. generalize (snd nbs). intros bs.
+  induction bs as [|[m rb] bs IH]; intros adj Hmp Hx Hbs; cbn [fold_res]; [eexists; split; reflexivity|].
+  cbn [fst snd]. destruct (Hmp m (Hbs m rb (or_introl eq_refl))) as (y & Ey & Hy). rewrite Ey.
+  destruct (link_total adj x y (plain rb) Hx Hy) as (adj1 & E1 & K1). rewrite E1.
+  destruct (IH adj1) as (adj' & E' & K').
+  - intros n Hn'. destruct (Hmp n Hn') as (z & Ez & Hz). exists z. split; [exact Ez|rewrite K1; exact Hz].
+  - rewrite K1. exact Hx.
+  - intros m' b' Hin. apply (Hbs m' b'). right. exact Hin.
+  - exists adj'. split; [exact E'|congruence].
+Qed.
+
+Lemma patch_bonds_total mp T : forall tb adj,
+  (forall n, In n T -> exists x, zget mp n = Some x /\ In x (keys adj)) ->
+  (forall n bs, In (n, bs) tb -> In n T /\ forall m b, In (m, b) bs -> In m T) ->
+  exists adj', fold_res (patch_bonds_of mp) tb adj = Ok adj' /\ keys adj' = keys adj.
+Proof.
+  induction tb as [|[n bs] tb IH]; intros adj Hmp Htb; cbn [fold_res]; [eexists; split; reflexivity|].
+  destruct (Htb n bs (or_introl eq_refl)) as [Hn Hbs].
+  destruct (patch_bonds_of_total mp T (n, bs) adj Hmp Hn Hbs) as (adj1 & E1 & K1). rewrite E1.
+  destruct (IH adj1) as (adj' & E' & K').
+  - intros k Hk. destruct (Hmp k Hk) as (z & Ez & Hz). exists z. split; [exact Ez|rewrite K1; exact Hz].
+  - intros k bs' Hin. apply Htb. right. exact Hin.
+  - exists adj'. split; [exact E'|congruence].
+Qed.
+
+Lemma keep_bonds_of_total P del nbs : forall adj,
+  (~ In (fst nbs) del -> In (fst nbs) (keys adj)) ->
+  (forall m b, In (m, b) (snd nbs) -> ~ In m del -> In m (keys adj)) ->
+  exists adj', keep_bonds_of P del adj nbs = Ok adj' /\ keys adj' = keys adj.
+Proof.
+  intros adj Hn Hbs. unfold keep_bonds_of.
+  destruct (zmem (fst nbs) del) eqn:Ed; [eexists; split; reflexivity|].
+  apply zmem_false in Ed. specialize (Hn Ed).
+  revert adj Hn Hbs. generalize (snd nbs). intros bs.
+  induction bs as [|[m b0] bs IH]; intros adj Hn Hbs; cbn [fold_res]; [eexists; split; reflexivity|].
+  cbn [fst snd].
+  destruct (zmem m del || zmem (fst nbs) P && zmem m P) eqn:Es.
+  - apply IH; [exact Hn|]. intros m' b' Hin. apply (Hbs m' b'). right. exact Hin.
+  - apply orb_false_iff in Es. destruct Es as [Em _]. apply zmem_false in Em.
+    destruct (link_total adj (fst nbs) m (plain b0) Hn (Hbs m b0 (or_introl eq_refl) Em)) as (adj1 & E1 & K1). rewrite E1.
+    destruct (IH adj1) as (adj' & E' & K').
+    + rewrite K1. exact Hn.
+    + intros m' b' Hin Hd. rewrite K1. apply (Hbs m' b'); [right; exact Hin|exact Hd].
+    + exists adj'. split; [exact E'|congruence].
+Qed.
+
+Lemma keep_bonds_total P del : forall l adj,
+  (forall n bs, In (n, bs) l -> (~ In n del -> In n (keys adj)) /\ forall m b, In (m, b) bs -> ~ In m del -> In m (keys adj)) ->
+  exists adj', fold_res (keep_bonds_of P del) l adj = Ok adj' /\ keys adj' = keys adj.
+Proof.
+  induction l as [|[n bs] l IH]; intros adj Hl; cbn [fold_res]; [eexists; split; reflexivity|].
+  destruct (Hl n bs (or_introl eq_refl)) as [Hn Hbs].
+  destruct (keep_bonds_of_total P del (n, bs) adj Hn Hbs) as (adj1 & E1 & K1). rewrite E1.
+  destruct (IH adj1) as (adj' & E' & K').
+  - intros k bs' Hin. rewrite K1. apply Hl. right. exact Hin.
+  - exists adj'. split; [exact E'|congruence].
+Qed.
+
+Theorem patcher_total : forall g mapping tpl del,
+  wf_mol g = true -> (forall x, In x (ids g) -> 0 < x) -> ids g <> [] ->
+  wf_template tpl = true ->
+  (* every any-atom of the replacement is matched; matched replacement atoms lie in the structure *)
+  (forall n chg rad, In (n, RAny chg rad) (t_atoms tpl) -> exists m, truthy_get mapping n = Some m) ->
+  (forall n m, In n (keys (t_atoms tpl)) -> truthy_get mapping n = Some m -> In m (ids g)) ->
+  exists new mp', patcher g mapping tpl del = Ok (new, mp').
+Proof.
+  intros g mapping tpl del Hwf Hpos Hne Hwt Hany Himg.
+  destruct (wf_mol_facts g Hwf) as (Hndg & Hkeys & Hadj).
+  destruct (wf_template_facts tpl Hwt) as (Hkb & HndT & Htb).
+  unfold patcher.
+  destruct (zmax_list (ids g)) as [mx|] eqn:Emx.
+  2:{ exfalso. unfold zmax_list in Emx. destruct (ids g); [contradiction|discriminate]. }
+  assert (Hmx : 0 < mx) by (apply Hpos; apply (zmax_list_spec _ _ Emx)).
+  destruct (patch_atoms_total g (t_atoms tpl) (mkP [] [] mapping mx)) as [s1 E1]; [exact HndT|cbn; lia|exact Hany|exact Himg|].
+  rewrite E1.
+  destruct (patch_atoms_spec g _ _ _ E1) as (_ & _ & _ & I4 & I5 & _ & _); [cbn; lia|]. cbn [p_atoms p_adj p_map p_max] in *.
+  assert (Hmapped : forall n, In n (keys (t_atoms tpl)) -> exists x, zget (p_map s1) n = Some x /\ In x (keys (p_adj s1))).
+  { intros n Hn. destruct (patch_atoms_mapped g _ _ _ E1) with (n := n) as [x Ex]; [cbn; lia|exact Hn|].
+    exists x. split; [apply (truthy_get_zget _ _ _ Ex)|].
+    rewrite (I5 eq_refl). apply I4. right. exists n. split; assumption. }
+  destruct (patch_bonds_total (p_map s1) (keys (t_atoms tpl)) (t_bonds tpl) (p_adj s1) Hmapped) as (adj2 & E2 & K2).
+  { intros n bs Hin. split.
+    - rewrite <- Hkb. unfold keys. apply in_map_iff. exists (n, bs). split; [reflexivity|exact Hin].
+    - intros m b Hmb. apply (proj2 (Htb n bs Hin) m b Hmb). }
+  rewrite E2.
+  set (P := keys (p_atoms s1)).
+  destruct (fold_left (keep_atom P del) (m_atoms g) (p_atoms s1, adj2)) as [atoms3 adj3] eqn:E3.
+  destruct (keep_atoms_spec P del (m_atoms g) (p_atoms s1, adj2)) as (K1 & _ & K3 & _ & _).
+  rewrite E3 in *. cbn [fst snd] in *.
+  assert (Hk3 : keys adj3 = keys atoms3) by (apply K1; rewrite K2; apply I5; reflexivity).
+  assert (Hsurv : forall x, In x (ids g) -> ~ In x del -> In x (keys adj3)).
+  { intros x Hx Hd. rewrite Hk3. apply K3. destruct (in_dec Z.eq_dec x P) as [Hp|Hp]; [left; exact Hp|right]. unfold ids in Hx. auto. }
+  destruct (keep_bonds_total P del (m_adj g) adj3) as (adj4 & E4 & _).
+  { intros n bs Hin. split.
+    - intros Hd. apply Hsurv; [|exact Hd]. rewrite <- Hkeys. unfold keys. apply in_map_iff. exists (n, bs). split; [reflexivity|exact Hin].
+    - intros m b Hmb Hd. apply Hsurv; [|exact Hd]. apply (proj2 (Hadj n bs Hin) m b Hmb). }
+  rewrite E4. eexists _, _. reflexivity.
+Qed.
+
+(* the whole call: to_delete computed by _get_deleted *)
+Theorem template_application_total : forall g mapping to_del tpl,
+  wf_mol g = true -> (forall x, In x (ids g) -> 0 < x) -> ids g <> [] ->
+  wf_template tpl = true ->
+  (forall p, In p to_del -> exists v, zget mapping p = Some v /\ In v (ids g)) ->
+  (forall n chg rad, In (n, RAny chg rad) (t_atoms tpl) -> exists m, truthy_get mapping n = Some m) ->
+  (forall n m, In n (keys (t_atoms tpl)) -> truthy_get mapping n = Some m -> In m (ids g)) ->
+  exists new mp', patcher_with get_deleted g mapping to_del tpl = Ok (new, mp').
+Proof.
+  intros g mapping to_del tpl Hwf Hpos Hne Hwt Hm Hany Himg.
+  unfold patcher_with.
+  destruct (wf_mol_facts g Hwf) as (_ & Hkeys & _).
+  destruct (get_deleted_spec_mol g mapping to_del Hwf) as (r & Er & _).
+  { intros p Hp. destruct (Hm p Hp) as (v & Ev & Hv). exists v. split; [exact Ev|]. rewrite Hkeys. exact Hv. }
+  rewrite Er. apply patcher_total; assumption.
+Qed.
+
+(* non-vacuity: the ethyl acetate example satisfies the hypotheses of template_application_total *)
+Example total_example :
+  ids ex_mol <> [] /\
+  (forall p, In p [4] -> exists v, zget ex_mapping p = Some v /\ In v (ids ex_mol)) /\
+  (forall n chg rad, In (n, RAny chg rad) (t_atoms ex_tpl) -> exists m, truthy_get ex_mapping n = Some m) /\
+  (forall n m, In n (keys (t_atoms ex_tpl)) -> truthy_get ex_mapping n = Some m -> In m (ids ex_mol)).
+Proof.
+  split; [discriminate|]. split.
+  { intros p [<-|[]]. exists 5. split; vm_compute; auto 10. }
+  split.
+  { intros n chg rad Hin. vm_compute in Hin.
+    destruct Hin as [E|[E|[E|[E|[]]]]]; inversion E; subst; eexists; vm_compute; reflexivity. }
+  intros n m Hn. vm_compute in Hn.
+  destruct Hn as [<-|[<-|[<-|[<-|[]]]]]; vm_compute; intros E; inversion E; subst; auto 10.
+Qed.
+
 (* ====================================================================================================
    fix_mapping_overlap
    ==================================================================================================== *)
@@ -2040,4 +2318,13 @@ Proof.
   unfold fix_mapping_overlap. destruct structures as [|s [|s2 r]]; [reflexivity|reflexivity|].
   destruct (Hgen (s :: s2 :: r) [] []) as [atoms' E]; [intros x; split; [intros []|intros (c & [] & _)]|intros c s' []|exact Hd|].
   rewrite E. reflexivity.
+Qed.
+
+(* non-vacuity: three structures numbered from 1 *)
+Example overlap_example :
+  Forall (@NoDup Z) [[1; 2; 3]; [1; 2]; [2; 5]] /\
+  fix_mapping_overlap [[1; 2; 3]; [1; 2]; [2; 5]] = Ok [[1; 2; 3]; [4; 5]; [6; 7]].
+Proof.
+  split; [|vm_compute; reflexivity].
+  repeat constructor; cbn; intuition discriminate.
 Qed.
